@@ -248,7 +248,106 @@ func ruleTableEscape(p *Prog, r *Report) {
 			}
 		})
 		if rangeElem == nil {
-			r.Bad(rule, "mxj.escapeChars", "applies the table in order", p.Pos(fn.Pos()), "no loop over the escape table found")
+			// single pass over the input, each byte looked up in the table by a helper: `for each byte c { if e := lookup(c); e != nil
+			// { write e } else { write c } }`, lookup scanning the table for the entry whose (one-byte) pattern is c
+			lookupOK := ""
+			single := true
+			for _, pr := range tab {
+				if len(pr[0]) != 1 {
+					single = false
+				}
+			}
+			eachInstr(fn, func(b *ssa.BasicBlock, in ssa.Instruction) {
+				c, ok := in.(*ssa.Call)
+				if !ok || lookupOK != "" || innermostLoopHeader(b) == nil || !single {
+					return
+				}
+				h := staticCallee(&c.Call)
+				if h == nil || !p.InModule(h) || p.Exported(h) || len(h.Blocks) == 0 || len(c.Call.Args) != 1 || len(h.Params) != 1 {
+					return
+				}
+				fromInput := false
+				for v := range backwardSlice(fn, c.Call.Args[0]) {
+					if v == ssa.Value(fn.Params[0]) {
+						fromInput = true
+					}
+				}
+				if !fromInput {
+					return
+				}
+				// the helper: a range over the table, the pattern's byte compared with the parameter, the replacement returned on equality
+				var elem *ssa.IndexAddr
+				eachInstr(h, func(b2 *ssa.BasicBlock, i2 ssa.Instruction) {
+					if ia, ok := i2.(*ssa.IndexAddr); ok && globalOf(ia.X) == g && isRangeIndex(ia.Index) {
+						elem = ia
+					}
+				})
+				if elem == nil {
+					return
+				}
+				compOf := func(v ssa.Value) int64 {
+					for x := range backwardSlice(h, v) {
+						var idx ssa.Value
+						var base ssa.Value
+						switch y := x.(type) {
+						case *ssa.IndexAddr:
+							idx, base = y.Index, y.X
+						case *ssa.Index:
+							idx, base = y.Index, y.X
+						}
+						if base == nil {
+							continue
+						}
+						if u, isU := base.(*ssa.UnOp); isU {
+							base = u.X
+						}
+						// the range value copied into a local: *v = *(&table[i])
+						if al, isA := base.(*ssa.Alloc); isA {
+							for _, ref := range *al.Referrers() {
+								if st, isSt := ref.(*ssa.Store); isSt && st.Addr == ssa.Value(al) {
+									if ld, isLd := st.Val.(*ssa.UnOp); isLd && ld.X == ssa.Value(elem) {
+										base = elem
+									}
+								}
+							}
+						}
+						if base == ssa.Value(elem) {
+							if k, isK := constInt(idx); isK {
+								return k
+							}
+						}
+					}
+					return -1
+				}
+				okCmp, okRet := false, false
+				eachInstr(h, func(b2 *ssa.BasicBlock, i2 ssa.Instruction) {
+					if bo, ok := i2.(*ssa.BinOp); ok && bo.Op == token.EQL {
+						if (bo.Y == ssa.Value(h.Params[0]) && compOf(bo.X) == 0) || (bo.X == ssa.Value(h.Params[0]) && compOf(bo.Y) == 0) {
+							okCmp = true
+							// a return of component 1 under the true edge
+							eachInstr(h, func(b3 *ssa.BasicBlock, i3 ssa.Instruction) {
+								ret, isRet := i3.(*ssa.Return)
+								if !isRet || len(ret.Results) != 1 || isNilConst(ret.Results[0]) || compOf(ret.Results[0]) != 1 {
+									return
+								}
+								for _, gd := range dominatingGuards(b3) {
+									if gd.Cond == ssa.Value(bo) && gd.Pol {
+										okRet = true
+									}
+								}
+							})
+						}
+					}
+				})
+				if okCmp && okRet {
+					lookupOK = p.Name(h)
+				}
+			})
+			if lookupOK != "" {
+				r.OK(rule, "mxj.escapeChars", "applies the table in order", p.Pos(fn.Pos()), "single pass over the input: every byte is looked up in the table by "+lookupOK+" (one-byte patterns, the entry's replacement returned on equality), so each character is replaced once and the order of the entries is irrelevant")
+			} else {
+				r.Bad(rule, "mxj.escapeChars", "applies the table in order", p.Pos(fn.Pos()), "no loop over the escape table found")
+			}
 		} else {
 			okIdx := isRangeIndex(rangeElem.Index)
 			// a Replace call whose old/new operands are components 0/1 of the element and whose subject is the accumulator
